@@ -4,6 +4,7 @@ import (
 	"fmt"
 	"go/constant"
 	"go/token"
+	"go/types"
 	"strings"
 
 	"golang.org/x/tools/go/ssa"
@@ -216,6 +217,7 @@ func checkC18(c *Ctx, r *Report) {
 	r.Explain = "Metric accounting as path counting: metrics are resolved to their registered names from the package initialisers; on every CFG path of each SendCommand implementation, of the command send closures, of the session/connection open functions and of the close functions, the number of Inc/Dec events per metric is compared with the outcome of that path (error returned or not, first attempt or retry, reply accepted or not); all other touch points of these metrics are reported. Exact per path; says nothing about totals over histories beyond what per-call exactness implies."
 	r.NotDecided = []string{"totals over arbitrary histories (follow from per-call exactness by induction, not checked as such)", "prometheus client internals"}
 	r.Trusted = []string{"go/types, go/ssa (x/tools v0.29.0)", "prometheus Counter.Inc/Gauge.Inc/Dec change the value by exactly one", "deferred calls run exactly once on every exit"}
+	checkCodeLabelDistinct(c, r)
 	mi := newMetricIndex(c)
 	r.Rule("metrics-resolved", "package-level collectors resolve to registered metric names", 10)
 	want := []string{"command_attempts_total", "command_failures_total", "command_retries_total", "command_responses_total", "session_open_attempts_total", "session_open_failures_total", "sessions_open", "connection_open_attempts_total", "connection_open_failures_total", "connections_open"}
@@ -585,4 +587,96 @@ func checkC18(c *Ctx, r *Report) {
 	// calls of Transport.Send
 	checkSendSites(c, r)
 	checkOneWriteOneRead(c, r)
+}
+
+// checkCodeLabelDistinct: "responses per completion code" counts per *label*, and the label is
+// CompletionCode.String(). Two codes are counted apart only if their labels differ: every
+// return of String is a formatting call (fmt.Sprint*, strconv.*) that is given the receiver's
+// numeric value — the description alone ("Unknown" for most codes) does not tell codes apart.
+func checkCodeLabelDistinct(c *Ctx, r *Report) {
+	r.Rule("code-label-distinct", "the label of command_responses_total, CompletionCode.String(), contains the code's numeric value on every return, so distinct codes have distinct series", 1)
+	fn := c.Method("pkg/ipmi", "CompletionCode", "String")
+	if fn == nil || len(fn.Params) == 0 {
+		r.Lost("ipmi.CompletionCode.String")
+		return
+	}
+	recv := fn.Params[0]
+	var fromRecv func(v ssa.Value, depth int) bool
+	fromRecv = func(v ssa.Value, depth int) bool {
+		if v == recv {
+			return true
+		}
+		if depth == 0 {
+			return false
+		}
+		switch x := v.(type) {
+		case *ssa.Convert:
+			return fromRecv(x.X, depth-1)
+		case *ssa.ChangeType:
+			return fromRecv(x.X, depth-1)
+		case *ssa.UnOp:
+			// a spilled value receiver: load of an alloc that was stored the parameter
+			if al, ok := x.X.(*ssa.Alloc); ok && x.Op == token.MUL {
+				for _, ref := range *al.Referrers() {
+					if st, ok := ref.(*ssa.Store); ok && st.Addr == al && fromRecv(st.Val, depth-1) {
+						return true
+					}
+				}
+			}
+		}
+		return false
+	}
+	isInt := func(t types.Type) bool {
+		b, ok := t.Underlying().(*types.Basic)
+		return ok && b.Info()&types.IsInteger != 0
+	}
+	// numeric values of the receiver boxed for a formatting call (named type with a String
+	// method excluded: that would print the description again)
+	numericBoxed := false
+	rawInstrs(fn, false, func(in ssa.Instruction) {
+		if mi, ok := in.(*ssa.MakeInterface); ok && isInt(mi.X.Type()) && fromRecv(mi.X, 4) {
+			if _, named := mi.X.Type().(*types.Named); !named {
+				numericBoxed = true
+			}
+		}
+	})
+	var judge func(v ssa.Value, depth int) bool
+	judge = func(v ssa.Value, depth int) bool {
+		if depth == 0 {
+			return false
+		}
+		switch x := v.(type) {
+		case *ssa.Phi:
+			for _, e := range x.Edges {
+				if !judge(e, depth-1) {
+					return false
+				}
+			}
+			return true
+		case *ssa.BinOp: // concatenation: one side suffices
+			return x.Op == token.ADD && (judge(x.X, depth-1) || judge(x.Y, depth-1))
+		case *ssa.Call:
+			name := calleeName(&x.Call)
+			switch {
+			case strings.HasPrefix(name, "fmt.Sprint"):
+				return numericBoxed
+			case strings.HasPrefix(name, "strconv.Itoa"), strings.HasPrefix(name, "strconv.Format"):
+				return len(x.Call.Args) > 0 && isInt(x.Call.Args[0].Type()) && fromRecv(x.Call.Args[0], 4)
+			}
+		}
+		return false
+	}
+	ok, n := true, 0
+	for _, b := range fn.Blocks {
+		if len(b.Instrs) == 0 {
+			continue
+		}
+		if ret, isRet := b.Instrs[len(b.Instrs)-1].(*ssa.Return); isRet && len(ret.Results) == 1 {
+			n++
+			if !judge(ret.Results[0], 6) {
+				ok = false
+			}
+		}
+	}
+	r.Check(ok && n > 0, c.FnName(fn)+"|numeric value in every label", fn.Pos(), fmt.Sprintf("%d returns, each a formatting of the code's numeric value", n), "a return of CompletionCode.String() is not a formatting call given the code's numeric value: codes that share a description (every code without a table entry) share one series of command_responses_total")
 }
